@@ -70,7 +70,11 @@ pub fn new(parameters: &RawParameters, ctx: &dyn Context) -> Result<Op, Error> {
         steps.push(Op::op(step_parameters, ctx)?);
     }
 
-    let params = ParsedParameters::new(parameters, &GAMUT)?;
+    let mut params = ParsedParameters::new(parameters, &GAMUT)?;
+    // Directional omission belongs to the individual steps. Seen from here, a
+    // modifier leading the first, or trailing the last step looks like our own
+    params.boolean.remove("omit_fwd");
+    params.boolean.remove("omit_inv");
     let fwd = InnerOp(pipeline_fwd);
     let inv = InnerOp(pipeline_inv);
     let descriptor = OpDescriptor::new(definition, fwd, Some(inv));
